@@ -3,7 +3,8 @@
    kernel answers to successive read() / write() calls).  Core Lean only.
 
    token := caps [ "@" skip ]        caps := cap { "," cap }        cap := <nat> | "e"
-   The caps are used cyclically, one per call: 0 = no cap, e = the call fails.
+   The caps are used cyclically, one per call: 0 = no cap, e = the call fails (C05 also a, n, p: it fails with EAGAIN, EINTR,
+   ECONNRESET instead of EIO - qmail-smtpd's saferead() ends the session on every error, so they mean the same to the model).
    (C06 read plans only) i = the call is interrupted (-1/EINTR, nothing transferred): substdio's `oneread` repeats the call,
    so for the model of what the kernel *delivers* the entry does not exist - it is dropped from the script. -/
 import Drv.Util
@@ -23,7 +24,7 @@ def parseCaps (s : String) : Option (Array (Option Nat)) :=
   if toks.isEmpty || toks.all (· == "i") then none else
   toks.foldl (fun acc t => match acc with
     | none => none
-    | some a => if t == "e" then some (a.push none) else if t == "i" then some a else match t.toNat? with
+    | some a => if t == "e" || t == "a" || t == "n" || t == "p" then some (a.push none) else if t == "i" then some a else match t.toNat? with
         | some n => some (a.push (some n))
         | none => none) (some #[])
 
